@@ -9,6 +9,8 @@ mod wiregen;
 mod wirebound;
 #[path = "../wireattr.rs"]
 mod wireattr;
+#[path = "/verif/harness/common/c03_sess.rs"]
+mod sessconv;
 
 use bytes::BytesMut;
 use rustybgp_packet::{bfd, rpki};
@@ -244,6 +246,165 @@ fn run_case(line: &str) -> String {
     }
 }
 
+// ------------------------------------------------------------------ session stream (routed to the daemon harness)
+
+fn sess_case(desc: &CodecDesc, est: bool, chunks: &[Vec<u8>], eof: bool) -> String {
+    let v: Vec<String> = chunks.iter().map(|c| wiregen::hex(c)).collect();
+    format!("(sess {} {} (chunks {}) {})", desc.term(), if est { "est" } else { "pre" }, v.join(" "), if eof { "t" } else { "f" })
+}
+
+/// at most `k` chunks: the tail is merged into the last one
+fn cap_chunks(mut chunks: Vec<Vec<u8>>, k: usize) -> Vec<Vec<u8>> {
+    while chunks.len() > k {
+        let last = chunks.pop().unwrap();
+        chunks.last_mut().unwrap().extend(last);
+    }
+    chunks
+}
+
+fn split_at(b: &[u8], cuts: &[usize]) -> Vec<Vec<u8>> {
+    let mut out = Vec::new();
+    let mut p = 0;
+    for c in cuts {
+        let c = (*c).min(b.len());
+        if c > p {
+            out.push(b[p..c].to_vec());
+            p = c;
+        }
+    }
+    if p < b.len() {
+        out.push(b[p..].to_vec());
+    }
+    out
+}
+
+/// hostile streams for a live session: deterministic part + the random packet-level streams re-used
+fn gen_sess(seed: u64, tier: &str) -> Vec<String> {
+    use verif_pt::sexp::Rng;
+    let mut out = Vec::new();
+    let d4 = CodecDesc { ext: false, two: false, fams: vec![(1, 1, false)] };
+    let d46 = CodecDesc { ext: true, two: true, fams: vec![(1, 1, true), (2, 1, false)] };
+    let ka = wiregen::raw_frame(4, &[]);
+    let mut attrs = Vec::new();
+    attrs.extend(wiregen::raw_attr(0x40, 1, &[0]));
+    attrs.extend(wiregen::raw_attr(0x40, 2, &[2, 1, 0, 0, 0xfd, 0x78]));
+    attrs.extend(wiregen::raw_attr(0x40, 3, &[10, 0, 0, 1]));
+    attrs.extend(wiregen::raw_attr(0xc0, 8, &[0xff, 0xff, 0xff, 1]));
+    let upd = wiregen::raw_update(&[], &attrs, &[24, 192, 0, 2]);
+    let notif = wiregen::raw_frame(3, &[6, 2]);
+    let rr = wiregen::raw_frame(5, &[0, 1, 0, 1]);
+    // --- established session
+    for desc in [&d4] {
+        // one byte per write
+        out.push(sess_case(desc, true, &ka.iter().map(|b| vec![*b]).collect::<Vec<_>>(), false));
+        // writes that end inside the header / inside an attribute / between messages
+        for cut in [1usize, 15, 16, 17, 18, 19, 22, 23, 26, 30, upd.len() - 1] {
+            out.push(sess_case(desc, true, &split_at(&upd, &[cut]), false));
+            out.push(sess_case(desc, true, &split_at(&upd, &[cut]), true));
+            // a trailing partial message followed by EOF / left waiting
+            out.push(sess_case(desc, true, &[upd[..cut].to_vec()], true));
+            out.push(sess_case(desc, true, &[upd[..cut].to_vec()], false));
+            out.push(sess_case(desc, true, &[[ka.clone(), upd[..cut].to_vec()].concat()], true));
+        }
+        // several messages in one write
+        for n in [2usize, 10, 200] {
+            let many: Vec<u8> = (0..n).flat_map(|i| if i % 3 == 2 { upd.clone() } else { ka.clone() }).collect();
+            out.push(sess_case(desc, true, &[many.clone()], false));
+            out.push(sess_case(desc, true, &split_at(&many, &[many.len() / 2 + 7]), true));
+        }
+        // messages that end the session: NOTIFICATION, OPEN, bad header length / type, bad attribute
+        let open = sessconv::canon_open(desc.ext, desc.two, &desc.fams);
+        for m in [notif.clone(), open.clone(), rr.clone()] {
+            out.push(sess_case(desc, true, &[ka.clone(), m.clone(), ka.clone()], false));
+            out.push(sess_case(desc, true, &split_at(&[ka.clone(), m.clone(), ka.clone()].concat(), &[20, 25]), false));
+        }
+        for (hi, lo, ty) in [(0u8, 18u8, 4u8), (0, 0, 4), (0x10, 1, 2), (0xff, 0xff, 2), (0, 19, 0), (0, 19, 6), (0, 20, 4), (0, 19, 2), (0, 22, 2)] {
+            let mut f = vec![0xffu8; 16];
+            f.extend_from_slice(&[hi, lo, ty]);
+            out.push(sess_case(desc, true, &[ka.clone(), f.clone()], false));
+            out.push(sess_case(desc, true, &[f.clone(), vec![0; 8]], true));
+            out.push(sess_case(desc, true, &split_at(&f, &[16, 17, 18]), false));
+        }
+        // a maximum-size message, byte patterns, an oversized one for the non-extended session
+        let big: Vec<u8> = {
+            let v: Vec<u8> = (0..4000).map(|i| (i % 4 == 3) as u8 * 7 + 0xf0).collect();
+            let mut a = attrs.clone();
+            a.extend(wiregen::raw_attr(0xd0, 8, &v));
+            wiregen::raw_update(&[], &a, &[24, 192, 0, 2])
+        };
+        out.push(sess_case(desc, true, &split_at(&big, &[1000, 2000, 3000]), false));
+        out.push(sess_case(desc, true, &[big[..3000].to_vec()], true));
+        out.push(sess_case(desc, true, &[vec![0u8; 64]], false));
+        out.push(sess_case(desc, true, &[vec![0xffu8; 64]], false));
+        out.push(sess_case(desc, true, &[], true));
+        out.push(sess_case(desc, true, &[], false));
+    }
+    // --- before the OPEN exchange
+    for desc in [&d4, &d46] {
+        let open = sessconv::canon_open(desc.ext, desc.two, &desc.fams);
+        let params = sessconv::canon_params(desc.ext, desc.two, &desc.fams);
+        out.push(sess_case(desc, false, &[open.clone()], false));
+        out.push(sess_case(desc, false, &[open.clone(), ka.clone()], false));
+        out.push(sess_case(desc, false, &[[open.clone(), ka.clone(), upd.clone(), ka.clone()].concat()], false));
+        out.push(sess_case(desc, false, &open.iter().map(|b| vec![*b]).collect::<Vec<_>>()[..].chunks(4).map(|c| c.concat()).collect::<Vec<_>>(), false));
+        for cut in [1usize, 16, 18, 19, 20, 28, 29, 31, open.len() - 1] {
+            out.push(sess_case(desc, false, &split_at(&open, &[cut]), false));
+            out.push(sess_case(desc, false, &[open[..cut].to_vec()], true));
+        }
+        // first message is not an OPEN / OPEN twice / UPDATE before KEEPALIVE / wrong AS / bad fixed fields
+        for m in [ka.clone(), upd.clone(), notif.clone(), rr.clone()] {
+            out.push(sess_case(desc, false, &[m.clone()], false));
+            out.push(sess_case(desc, false, &[open.clone(), m.clone()], false));
+            out.push(sess_case(desc, false, &[open.clone(), ka.clone(), m.clone()], true));
+        }
+        out.push(sess_case(desc, false, &[open.clone(), open.clone()], false));
+        for (my_as, hold, rid) in [(100u16, 0u16, 0x0a000001u32), (sessconv::PEER_ASN as u16, 1, 0x0a000001), (sessconv::PEER_ASN as u16, 0, 0), (23456, 90, 0x0a000001)] {
+            out.push(sess_case(desc, false, &[sessconv::open_frame(my_as, hold, rid, &params), ka.clone()], false));
+        }
+        let mut v = open.clone();
+        v[19] = 3; // version
+        out.push(sess_case(desc, false, &[v], false));
+        out.push(sess_case(desc, false, &[vec![0u8; 40]], false));
+        out.push(sess_case(desc, false, &[], true));
+    }
+    // --- random: the packet-level streams (valid encoder output + structural mutations, fragmented) on a live session
+    let n = if tier == "thorough" { 3000 } else { 110 };
+    let mut r = Rng(seed.wrapping_mul(0x9E3779B97F4A7C15) ^ 0x5E55);
+    let mut made = 0;
+    let mut tries = 0;
+    while made < n && tries < n * 20 {
+        tries += 1;
+        let line = wiregen::gen_bgp_case(&mut r);
+        let Some(t) = Term::parse(&line) else { continue };
+        let Some(l) = t.as_list() else { continue };
+        if l.len() != 3 {
+            continue;
+        }
+        let Some(desc) = CodecDesc::parse(&l[1]) else { continue };
+        let Some(chunks) = chunks_of(&l[2]) else { continue };
+        if desc.fams.is_empty() || !desc.distinct() || !desc.fams.iter().all(|f| sessconv::sess_family(f.0, f.1)) {
+            continue;
+        }
+        let eof = r.chance(1, 4);
+        match r.below(4) {
+            0 => {
+                // before the OPEN exchange: the stream alone, or behind the OPEN (and KEEPALIVE)
+                let open = sessconv::canon_open(desc.ext, desc.two, &desc.fams);
+                let mut all: Vec<u8> = if r.chance(1, 3) { vec![] } else if r.chance(1, 2) { open.clone() } else { [open.clone(), wiregen::raw_frame(4, &[])].concat() };
+                all.extend(chunks.concat());
+                if !sessconv::pre_admissible(desc.ext, desc.two, &desc.fams, &all) {
+                    continue;
+                }
+                let ch = cap_chunks(wiregen::fragment(&mut r, &all), 6);
+                out.push(sess_case(&desc, false, &ch, eof));
+            }
+            _ => out.push(sess_case(&desc, true, &cap_chunks(chunks, 6), eof)),
+        }
+        made += 1;
+    }
+    out
+}
+
 fn main() {
     let a: Vec<String> = std::env::args().collect();
     silence_panics();
@@ -257,6 +418,9 @@ fn main() {
                 println!("{}", l);
             }
             for l in wireattr::attr_boundary_cases() {
+                println!("{}", l);
+            }
+            for l in gen_sess(seed, &a[4]) {
                 println!("{}", l);
             }
             for l in wiregen::gen_c03(seed, n, &a[4]) {
